@@ -57,7 +57,7 @@ LEVEL = {
  'C14': ('partial claim. (G) bounded symbolic model checking of the real MIR of SimpleOpHeadsStore::update_op_heads with the file system as an effect log and every call able to fail: the new head is added first, only parents are removed, a failure leaves a prefix. (L) a z3 bounded model check of the protocol extracted from (G) over all interleavings/crash points of 2-3 writers (with a vacuity witness and a negative control). Readers-always-find-a-head under non-atomic readdir and the final single-head state are not covered', '4 C14'),
  'C06': ('bounded symbolic model checking of the real MIR of the async update_from_content (simplify, extract, merge_hunks, parse_conflict, update_from_simplified) with the Store replaced by a content-map stub and file contents symbolic: an unedited materialization gives back exactly the original ids (unsimplified arity), an edit of a resolved region is applied to every surviving term while cancelled pairs are untouched', '4 C06'),
  'C16': ('partial claim (round trip of views at the conversion layer). Bounded symbolic model checking of the real MIR of view_to_proto / view_from_proto and all their helpers (legacy bookmark form, remote views, ref targets, tracking state) on views whose name and id bytes are symbolic: every field of the view read back must equal the one written. Prost wire encoding, file I/O, content hashing and the operation half are not covered', '4 C16'),
- 'C18': ('partial claim (graph queries over abstract segments). Bounded symbolic model checking of the real MIR of CompositeCommitIndex::{entry_by_pos, is_ancestor_pos, heads_pos, common_ancestors_pos, all_heads_pos} and AncestorsBitSet/PositionsBitSet with the parent relation of the commit graph fully symbolic (one solver boolean per pair of positions, generation numbers as terms over them) and the index split over 1-3 stacked abstract segments: each answer is compared by the solver with the transitive closure of the symbolic graph on every path. Segment tables, on-disk encoding, squashing, merge_in, reload and change-id lookups are not covered', '4 C18'),
+ 'C18': ('partial claim. (1) Bounded symbolic model checking of the real MIR of CompositeCommitIndex::{entry_by_pos, is_ancestor_pos, heads_pos, common_ancestors_pos, all_heads_pos} and AncestorsBitSet/PositionsBitSet with the parent relation of the commit graph fully symbolic (one solver boolean per pair of positions, generation numbers as terms over them) and the index split over 1-3 stacked abstract segments: each answer is compared by the solver with the transitive closure of the symbolic graph on every path. (2) The real segments on small instances with symbolic ids: MutableCommitIndexSegment::add_commit_data, serialize_local_entries, ReadonlyCommitIndexSegment::load_with_parent_file and every CommitIndexSegment accessor of both (incl. the parent and change overflow tables and a stacked segment) must report exactly what was added. Squashing, merge_in of divergent indexes, the index store and larger histories are not covered', '4 C18'),
  'C19': ('partial claim (the default engine on resolved expressions). Bounded symbolic model checking of the real MIR of EvaluationContext::evaluate and everything below it (RevWalkBuilder and the ancestor / generation-range / descendant walks, RevWalkQueue, the Union/Intersection/Difference walk and predicate adapters, FilterRevset, heads/roots/forks/fork-point/merge-point/reachable nodes) over a commit graph whose parent relation is fully symbolic: for each node type of ResolvedExpression applied to explicit commit sets, the yielded position stream is compared by the solver with the set-theoretic definition over the symbolic graph (membership of every position, strictly descending order) on every path. One-node step that composes over expression trees. Parser, lowering, optimize(), symbol/visibility resolution, Latest and content filters are not covered', '4 C19'),
  'C39': ('partial claim (the graph walk of the default index; not the topological regrouping or the renderer). Bounded symbolic model checking of the real MIR of RevsetGraphWalk (look-ahead, cached edges of hidden commits, transitive edge removal) over a commit graph whose parent relation is fully symbolic and every shown subset of it: node order, the meaning of every direct / indirect / missing edge, exactness of the edge set without transitive-edge skipping, and that the edges imply exactly the ancestry between shown commits are solver obligations on every path', '4 C39'),
  'C02': ('bounded symbolic model checking of the real MIR of trivial_merge/resolve_trivial incl. the HashMap counting path with nondeterministic iteration order; result compared by the solver with an independent counting oracle on every path', '4 C02'),
